@@ -74,7 +74,7 @@ def add(*a, **k):
 DEC_WHAT_NAT = ("leb128::decode_nat: no panic/overflow; unterminated => Err; value >= 2^128 => Err; otherwise "
                 "Ok(mathematical value) and exactly the string's bytes consumed (oracle: explicit wide arithmetic from the spec)")
 DEC_WHAT_INT = "leb128::decode_int: same, signed (two's complement of 7n bits), range is i128"
-for n, q, est in ((20, True, 30), (28, False, 60), (40, False, 200)):
+for n, q, est in ((20, True, 30), (28, True, 60), (40, False, 200)):
     b = (f"all 2^{8*n} buffers of {n} bytes = every string whose first terminator lies within {n} bytes (minimal and "
          f"padded) plus the unterminated ones of length {n}; unwind {n+2}")
     add("C09", f"c09_dec_nat128_eq{n}", "ext", "c09_leb128", b, DEC_WHAT_NAT, quick=q, est_s=est)
@@ -108,18 +108,18 @@ for n in (1, 5, 9, 10):
         BN_DEC, quick=n in (9,), est_s=200, cap_s=1800, mem_gb=28,
         stubs=["num_bigint::BigUint::from_radix_le", "<num_bigint::BigUint as std::convert::From<u64>>::from"])
     add("C09", f"c09_int_dec_len{n}", "ext", "c09_bignum", f"all SLEB128 strings of exactly {n} bytes (continuation bits forced)",
-        BN_DEC, quick=n in (9,), est_s=200, cap_s=1800, mem_gb=28,
+        BN_DEC, quick=True, est_s=200, cap_s=1800, mem_gb=28,
         stubs=["num_bigint::BigUint::from_radix_le", "<num_bigint::BigInt as std::convert::From<i64>>::from"])
 for n in range(9, 17):
     add("C09", f"c09_int_enc_big{n}", "ext", "c09_bignum",
         f"all integers whose minimal two's-complement form has exactly {n} bytes (to_i64 -> None, to_signed_bytes_le returns "
         f"the minimal bytes by contract)",
-        "Int::encode (hand-written 8->7 bit repacking) emits exactly the minimal SLEB128 of the value", quick=n in (9,),
+        "Int::encode (hand-written 8->7 bit repacking) emits exactly the minimal SLEB128 of the value", quick=n in (9, 12, 16),
         est_s=250, cap_s=1800, stubs=["num_bigint::BigInt::to_signed_bytes_le"])
 for n in (10, 11, 14, 19):
     add("C09", f"c09_nat_enc_big{n}", "ext", "c09_bignum",
         f"all naturals > u64::MAX with exactly {n} base-128 digits (to_u64 -> None, to_radix_le returns the digits by contract)",
-        "Nat::encode emits exactly the minimal LEB128 of the value", quick=n in (10,), est_s=120, cap_s=1800,
+        "Nat::encode emits exactly the minimal LEB128 of the value", quick=True, est_s=120, cap_s=1800,
         stubs=["num_bigint::BigUint::to_radix_le"])
 
 U128_WHAT = ("deserialize_u128 on constructed decoder state: Ok => wire is nat, value == LEB128 value, bytes consumed == "
@@ -167,7 +167,7 @@ add("C15", "c15_hash_two_copies_le8", "ext", "c15_hash", "all valid UTF-8 string
 LABEL_WHAT = ("a == b <=> get_id equal; cmp and partial_cmp are the id ordering; equal labels hash equally (recording "
               "Hasher); Named(s).get_id() == spec hash; Id(hash(s)) == Named(s)")
 for n, d, q in (("c15_label_n2_id", "Named(2 symbolic ASCII bytes) vs Id(any u32)", True),
-                ("c15_label_n3_unnamed", "Named(3 symbolic ASCII bytes) vs Unnamed(any u32)", False),
+                ("c15_label_n3_unnamed", "Named(3 symbolic ASCII bytes) vs Unnamed(any u32)", True),
                 ("c15_label_n2_n2", "Named(2 bytes) vs Named(2 bytes)", True),
                 ("c15_label_n1_n2", "Named(1 byte) vs Named(2 bytes)", True),
                 ("c15_label_id_unnamed", "Id(any u32) vs Unnamed(any u32)", True)):
@@ -177,8 +177,8 @@ add("C15", "c15_label_collision_suffix2", "ext", "c15_hash",
     LABEL_WHAT + "; two different names with one id are equal, hash equally and are rejected by check_unique", est_s=120, cap_s=2400)
 add("C15", "c15_label_collision_suffix4", "ext", "c15_hash",
     "Named(\"lraubw\") vs Named(\"qd\" + 4 symbolic lower-case letters)",
-    LABEL_WHAT + "; two different names with one id are equal, hash equally and are rejected by check_unique", quick=False,
-    est_s=600, cap_s=3600)
+    LABEL_WHAT + "; two different names with one id are equal, hash equally and are rejected by check_unique",
+    est_s=200, cap_s=3600)
 for n, d in (("c15_check_unique_n2_id_u", "[Named(2 bytes), Id(any), Unnamed(any)] sorted by id"),
              ("c15_check_unique_id_n1_n2", "[Id(any), Named(1 byte), Named(2 bytes)] sorted by id")):
     add("C15", n, "ext", "c15_hash", d,
@@ -205,7 +205,7 @@ add("C16", "c16_ctor_len", "ext", "c16_principal", "all slices of symbolic lengt
 RT_WHAT = ("v fully symbolic: real ValueSerializer output == reference encoding written from the spec's M rules, byte for "
            "byte (C03); decoding those bytes at the same Candid type returns Ok(v') with v' == v (floats by bits) and "
            "consumes every byte (C01)")
-RT = [("bool", "all bool"), ("u8", "all u8"), ("u16", "all u16"), ("u32", "all u32"), ("u64", "all u64"), ("i8", "all i8"),
+RT = [("ascii2", "all ASCII Strings of exactly 2 bytes"), ("bool", "all bool"), ("u8", "all u8"), ("u16", "all u16"), ("u32", "all u32"), ("u64", "all u64"), ("i8", "all i8"),
       ("i16", "all i16"), ("i32", "all i32"), ("i64", "all i64"), ("f32", "all f32 bit patterns incl. NaNs"),
       ("f64", "all f64 bit patterns incl. NaNs"), ("unit", "()"), ("string0", "empty String"),
       ("string2", "all valid UTF-8 Strings of exactly 2 bytes"), ("string3", "all valid UTF-8 Strings of exactly 3 bytes"),
@@ -219,7 +219,9 @@ RT = [("bool", "all bool"), ("u8", "all u8"), ("u16", "all u16"), ("u32", "all u
 RT += [("vec_box_u64_1", "all Vec<Box<u64>> of 1 element (wrapper element type)"),
        ("vec_box_u32_2", "all Vec<Box<u32>> of 2 elements (wrapper element type)")]
 RT_QUICK = {"bool", "u16", "i64", "f32", "f64", "unit", "string0", "tuple_u8_i32", "vec_u16_2", "vec_bool_2", "vec_u8_2", "vec_empty_u32"}
-for n, d in RT:
+# not registered (no answer within 3600 s on the repaired tree): every shape with a non-empty String, and two heavy shapes
+RT_DROPPED = {"ascii2", "string2", "string3", "opt_string", "vec_string_1", "tuple_bool_u16", "vec_opt_u8_2"}
+for n, d in [x for x in RT if x[0] not in RT_DROPPED]:
     add(["C01", "C03"], f"c01_rt_{n}", "candid", "de_rt", d, RT_WHAT, quick=n in RT_QUICK, est_s=90, cap_s=600 if n in RT_QUICK else 3600,
         cbmc_args=MEMCMP_)
 
